@@ -18,11 +18,14 @@ Open Scope Z_scope.
 Record cflags := {
   cf_stale_prev : bool;     (* true (pinned, F12a): after the "only repeated reference keys" branch the strategy
                                returns early and does NOT advance its comparison base [prev] *)
-  cf_blind_repoint : bool   (* true (pinned, F12b): a flush sets the latest pointer unconditionally;
+  cf_blind_repoint : bool;  (* true (pinned, F12b): a flush sets the latest pointer unconditionally;
                                false (repaired): only if it still names the version being removed *)
+  cf_shared_refs : bool     (* true (pinned, F12c): removing a duplicate version schedules ALL its reference keys, also when
+                               they are the very keys of the kept version (same recorded time: reference keys carry no
+                               batch index); false (repaired): such keys are skipped, as the second branch already does *)
 }.
-Definition cf_current : cflags := {| cf_stale_prev := true; cf_blind_repoint := true |}.
-Definition cf_fixed : cflags := {| cf_stale_prev := false; cf_blind_repoint := false |}.
+Definition cf_current : cflags := {| cf_stale_prev := true; cf_blind_repoint := true; cf_shared_refs := true |}.
+Definition cf_fixed : cflags := {| cf_stale_prev := false; cf_blind_repoint := false; cf_shared_refs := false |}.
 
 (** the strategy calls server.IsEntityEqual on two entities BOTH decoded from stored JSON, so nested
     entities are plain maps on both sides (the F02b pointer comparison cannot occur); the F01a
@@ -40,7 +43,8 @@ Definition kmem (k : vkey) (l : list vkey) : bool := existsb (vkey_eqb k) l.
 Record instr := {
   i_del : option vkey;            (* version key to delete (with its change-log entry) *)
   i_weight : Z;                   (* len(DeleteKeys): version key + reference keys (2 per target) *)
-  i_repoint : option vkey         (* latest pointer of the entity := this version key *)
+  i_repoint : option vkey;        (* latest pointer of the entity := this version key *)
+  i_shared : bool                 (* the scheduled reference keys are also the keys of the kept version (F12c) *)
 }.
 
 Definition ref_targets (c : content) : Z :=
@@ -63,14 +67,16 @@ Fixpoint entity_pass (cf : cflags) (eqb : content -> content -> bool) (prev : en
   | v :: vs' =>
     let is_last := match vs' with [] => true | _ => false end in
     if eqb (en_c prev) (en_c v) then
+      let same_time := Z.eqb (en_time prev) (en_time v) in
       {| i_del := Some (key_of v);
-         i_weight := 1 + 2 * ref_targets (en_c v);
-         i_repoint := if is_last then Some (key_of prev) else None |}
+         i_weight := if cf_shared_refs cf || negb same_time then 1 + 2 * ref_targets (en_c v) else 1;
+         i_repoint := if is_last then Some (key_of prev) else None;
+         i_shared := cf_shared_refs cf && same_time && (0 <? ref_targets (en_c v)) |}
       :: entity_pass cf eqb prev vs'
     else
       let w := if Bool.eqb (c_del (en_c prev)) (c_del (en_c v)) then common_ref_weight prev v else 0 in
       if 0 <? w then
-        {| i_del := None; i_weight := w; i_repoint := None |}
+        {| i_del := None; i_weight := w; i_repoint := None; i_shared := false |}
         :: entity_pass cf eqb (if cf_stale_prev cf then prev else v) vs'
       else entity_pass cf eqb v vs'
   end.
